@@ -9,7 +9,8 @@
 //
 // History part (per graph x cache capacity): verif/bfs explores every sequence of queries
 //
-//	CanReach(a,b,d)  ReachOf(a,d)  ReachSliceOf(a,d)  OrReach(a,d)  XorReach(a,d)      a,b in V, d in {out,in}
+//	ReachOf(a,d)  ReachSliceOf(a,d)  OrReach(a,d)  XorReach(a,d)  CanReachAll(d) = CanReach(a,b,d) for every a,b
+//	a,b in V, d in {out,in}
 //
 // to the depth bound on a real ReachabilityCache. The reference model is stateless (naive BFS over the edge list):
 // the statement says every answer is a function of the graph alone. Canonical state = the complete internal state of
@@ -29,6 +30,7 @@ import (
 	"fmt"
 	"os"
 	"reflect"
+	"runtime/debug"
 	"sort"
 	"strings"
 	"sync"
@@ -63,6 +65,7 @@ type spec struct {
 	out, in   [][]int
 	reachOut  []uint32 // reflexive-transitive closure as bit masks over node indices
 	reachIn   []uint32
+	digraph   container.DirectedGraph // built once for the history part (immutable after Build; the cache only reads it)
 }
 
 func newSpec(g graphs.Graph, profile, cont string) *spec {
@@ -298,10 +301,13 @@ func (s *spec) opName(o op) string {
 	case kXorReach:
 		return fmt.Sprintf("XorReach(%d,%s)", s.ids[o.a], dirName(o.dir))
 	}
-	return fmt.Sprintf("CanReach(%d,%d,%s)", s.ids[o.a], s.ids[o.b], dirName(o.dir))
+	return fmt.Sprintf("CanReachAll(%s)", dirName(o.dir))
 }
 
-// alphabet lists the operations simplest first: reach queries (they write the caches) before CanReach (which does not).
+// alphabet lists the operations simplest first. Every reach operation is exactly one API call. CanReachAll(d) asks
+// CanReach(a,b,d) for every ordered pair in one transition: CanReach never touches the caches (Apply verifies that the
+// canonical state is unchanged by it, and fails the run as a machinery error otherwise), so all interleavings of
+// individual CanReach calls inside a state are equivalent and one fixed order covers them.
 func (s *spec) alphabet() []op {
 	var ops []op
 	dirs := []graph.Direction{graph.DirectionOutbound, graph.DirectionInbound}
@@ -313,11 +319,7 @@ func (s *spec) alphabet() []op {
 		}
 	}
 	for _, d := range dirs {
-		for a := 0; a < s.g.N; a++ {
-			for b := 0; b < s.g.N; b++ {
-				ops = append(ops, op{kind: kCanReach, a: a, b: b, dir: d})
-			}
-		}
+		ops = append(ops, op{kind: kCanReach, dir: d})
 	}
 	return ops
 }
@@ -333,7 +335,11 @@ type inst struct {
 }
 
 func newInst(s *spec, capacity int, ops []op) *inst {
-	return &inst{s: s, cap: capacity, ops: ops, rc: algo.NewReachabilityCache(context.Background(), s.build(), capacity)}
+	d := s.digraph
+	if d == nil {
+		d = s.build()
+	}
+	return &inst{s: s, cap: capacity, ops: ops, rc: algo.NewReachabilityCache(context.Background(), d, capacity)}
 }
 
 // answer runs one query on the real cache and returns (got, want) rendered the same way.
@@ -341,9 +347,20 @@ func (in *inst) answer(o op) (got, want string) {
 	s := in.s
 	switch o.kind {
 	case kCanReach:
-		g := in.rc.CanReach(s.ids[o.a], s.ids[o.b], o.dir)
-		w := s.reach(o.a, o.dir)&(1<<uint(o.b)) != 0
-		return fmt.Sprint(g), fmt.Sprint(w)
+		var gots, wants []string
+		before := in.Canon()
+		for a := range s.ids {
+			for b := range s.ids {
+				g := in.rc.CanReach(s.ids[a], s.ids[b], o.dir)
+				w := s.reach(a, o.dir)&(1<<uint(b)) != 0
+				gots = append(gots, fmt.Sprintf("%d~>%d:%v", s.ids[a], s.ids[b], g))
+				wants = append(wants, fmt.Sprintf("%d~>%d:%v", s.ids[a], s.ids[b], w))
+			}
+		}
+		if in.Canon() != before {
+			core.Fatalf("CanReach changed the cache state (%s -> %s): the CanReachAll reduction is unsound for this tree, split it into single calls", before, in.Canon())
+		}
+		return strings.Join(gots, " "), strings.Join(wants, " ")
 	case kReachOf:
 		g := in.rc.ReachOfComponentContainingMember(s.ids[o.a], o.dir).Slice()
 		return fmt.Sprint(g), fmt.Sprint(s.maskIDs(s.reach(o.a, o.dir)))
@@ -354,26 +371,29 @@ func (in *inst) answer(o op) (got, want string) {
 		}
 		return fmt.Sprint(union.Slice()), fmt.Sprint(s.maskIDs(s.reach(o.a, o.dir)))
 	case kOrReach, kXorReach:
-		// D = every node except a: D | (reach \ {a}) = D, D ^ (reach \ {a}) = V \ reach; and D = {} for the plain value
 		var (
 			self   = uint32(1) << uint(o.a)
 			all    = uint32(1)<<uint(s.g.N) - 1
 			others = s.reach(o.a, o.dir) &^ self
-			gots   []string
-			wants  []string
 		)
-		for _, d := range []uint32{0, all &^ self} {
-			dup := cardinality.NewBitmap64With(s.maskIDs(d)...)
-			if o.kind == kOrReach {
-				in.rc.OrReach(s.ids[o.a], o.dir, dup)
-				wants = append(wants, fmt.Sprint(s.maskIDs(d|others)))
-			} else {
-				in.rc.XorReach(s.ids[o.a], o.dir, dup)
-				wants = append(wants, fmt.Sprint(s.maskIDs(d^others)))
+		if o.kind == kOrReach {
+			// D = the lowest-index node other than a (empty for a one-node graph); expects D | (reach \ {a})
+			d := uint32(0)
+			for i := 0; i < s.g.N; i++ {
+				if i != o.a {
+					d = 1 << uint(i)
+					break
+				}
 			}
-			gots = append(gots, fmt.Sprint(dup.Slice()))
+			dup := cardinality.NewBitmap64With(s.maskIDs(d)...)
+			in.rc.OrReach(s.ids[o.a], o.dir, dup)
+			return fmt.Sprint(dup.Slice()), fmt.Sprint(s.maskIDs(d | others))
 		}
-		return strings.Join(gots, " / "), strings.Join(wants, " / ")
+		// D = every node except a; expects D ^ (reach \ {a}) = the nodes a cannot reach
+		d := all &^ self
+		dup := cardinality.NewBitmap64With(s.maskIDs(d)...)
+		in.rc.XorReach(s.ids[o.a], o.dir, dup)
+		return fmt.Sprint(dup.Slice()), fmt.Sprint(s.maskIDs(d ^ others))
 	}
 	core.Fatalf("bad op")
 	return
@@ -457,41 +477,50 @@ func histProblem(s *spec, capacity, depth int) *bfs.Problem {
 // ---------------------------------------------------------------------------------------------------------------
 // bounds
 
+// family is one enumerated set of graphs together with the id profiles it is run under and (for the history part) the
+// depth bound of the query-history search.
+type family struct {
+	Graphs   graphs.Options
+	Profiles []string
+	Depth    int
+}
+
 type bounds struct {
-	// static part
-	staticLabelled graphs.Options // every labelled digraph
-	staticIso      graphs.Options // one per isomorphism class
-	// history part
-	histLabelled      graphs.Options
-	histLabelledDepth int
-	histIso           graphs.Options
-	histIsoDepth      int
-	profilesSmall     []string
-	profilesLarge     []string
+	static  []family
+	history []family
 }
 
 func tierBounds(t core.Tier) bounds {
+	var (
+		ab = []string{"A", "B"}
+		a  = []string{"A"}
+	)
 	if t == core.Quick {
 		return bounds{
-			staticLabelled:    graphs.Options{MaxNodes: 4, MaxEdges: 16, SelfLoops: true},
-			staticIso:         graphs.Options{MinNodes: 5, MaxNodes: 5, MaxEdges: 6, IsoReduce: true},
-			histLabelled:      graphs.Options{MaxNodes: 3, MaxEdges: 6},
-			histLabelledDepth: 3,
-			histIso:           graphs.Options{MinNodes: 4, MaxNodes: 4, MaxEdges: 12, IsoReduce: true},
-			histIsoDepth:      3,
-			profilesSmall:     []string{"A", "B"},
-			profilesLarge:     []string{"A"},
+			static: []family{
+				{Graphs: graphs.Options{MaxNodes: 3, MaxEdges: 9, SelfLoops: true}, Profiles: ab},             // every labelled digraph, loops included
+				{Graphs: graphs.Options{MinNodes: 4, MaxNodes: 4, MaxEdges: 12}, Profiles: ab},                // every labelled loop-free digraph
+				{Graphs: graphs.Options{MinNodes: 5, MaxNodes: 5, MaxEdges: 6, IsoReduce: true}, Profiles: a}, // one per isomorphism class
+			},
+			history: []family{
+				{Graphs: graphs.Options{MaxNodes: 3, MaxEdges: 6}, Profiles: ab, Depth: 4},
+				{Graphs: graphs.Options{MinNodes: 4, MaxNodes: 4, MaxEdges: 12, IsoReduce: true}, Profiles: ab, Depth: 3},
+				{Graphs: graphs.Options{MinNodes: 5, MaxNodes: 5, MaxEdges: 5, IsoReduce: true}, Profiles: a, Depth: 2},
+			},
 		}
 	}
 	return bounds{
-		staticLabelled:    graphs.Options{MaxNodes: 4, MaxEdges: 16, SelfLoops: true},
-		staticIso:         graphs.Options{MinNodes: 5, MaxNodes: 5, MaxEdges: 20, IsoReduce: true},
-		histLabelled:      graphs.Options{MaxNodes: 4, MaxEdges: 12},
-		histLabelledDepth: 3,
-		histIso:           graphs.Options{MinNodes: 5, MaxNodes: 5, MaxEdges: 7, IsoReduce: true},
-		histIsoDepth:      4,
-		profilesSmall:     []string{"A", "B"},
-		profilesLarge:     []string{"A"},
+		static: []family{
+			{Graphs: graphs.Options{MaxNodes: 4, MaxEdges: 16, SelfLoops: true}, Profiles: ab},
+			{Graphs: graphs.Options{MinNodes: 5, MaxNodes: 5, MaxEdges: 20, IsoReduce: true}, Profiles: ab},
+			{Graphs: graphs.Options{MinNodes: 5, MaxNodes: 5, MaxEdges: 6}, Profiles: a},
+		},
+		history: []family{
+			{Graphs: graphs.Options{MaxNodes: 3, MaxEdges: 6}, Profiles: ab, Depth: 5},
+			{Graphs: graphs.Options{MinNodes: 4, MaxNodes: 4, MaxEdges: 12}, Profiles: ab, Depth: 3},
+			{Graphs: graphs.Options{MinNodes: 4, MaxNodes: 4, MaxEdges: 12, IsoReduce: true}, Profiles: a, Depth: 5},
+			{Graphs: graphs.Options{MinNodes: 5, MaxNodes: 5, MaxEdges: 7, IsoReduce: true}, Profiles: a, Depth: 3},
+		},
 	}
 }
 
@@ -511,31 +540,22 @@ func capacities(n int) []int {
 // ---------------------------------------------------------------------------------------------------------------
 
 func parseProblem(name string) (kind string, capacity int, s *spec) {
-	parts := strings.SplitN(name, "/", 5)
-	bad := func() { core.Fatalf("replay: cannot parse problem %q", name) }
-	if len(parts) < 4 {
-		bad()
-	}
-	kind = parts[0]
-	rest := parts[1:]
-	if kind == "hist" {
-		if _, err := fmt.Sscanf(rest[0], "cap=%d", &capacity); err != nil {
-			bad()
+	// "static/<container>/ids=<profile>/<graph>" or "hist/cap=<k>/<container>/ids=<profile>/<graph>"
+	parts := strings.Split(name, "/")
+	if len(parts) > 0 && parts[0] == "hist" && len(parts) == 5 {
+		if _, err := fmt.Sscanf(parts[1], "cap=%d", &capacity); err != nil {
+			core.Fatalf("replay: cannot parse problem %q", name)
 		}
-		rest = rest[1:]
+		parts = append([]string{"hist"}, parts[2:]...)
 	}
-	if len(rest) < 3 {
-		// graph text itself contains no '/', but SplitN may have left it joined
-		rest = strings.SplitN(strings.Join(rest, "/"), "/", 3)
+	if len(parts) != 4 || (parts[0] != "hist" && parts[0] != "static") {
+		core.Fatalf("replay: cannot parse problem %q", name)
 	}
-	if len(rest) != 3 {
-		bad()
-	}
-	g, err := graphs.Parse(rest[2])
+	g, err := graphs.Parse(parts[3])
 	if err != nil {
 		core.Fatalf("replay: %v", err)
 	}
-	return kind, capacity, newSpec(g, strings.TrimPrefix(rest[1], "ids="), rest[0])
+	return parts[0], capacity, newSpec(g, strings.TrimPrefix(parts[2], "ids="), parts[1])
 }
 
 func replay(run *core.Run) {
@@ -593,69 +613,84 @@ type job struct {
 
 func main() {
 	run := core.Start("C15", "model_checking")
+	debug.SetGCPercent(400)
+	debug.SetMemoryLimit(3 << 30)
 	if run.Replay != "" {
 		replay(run)
 		return
 	}
 	b := tierBounds(run.Tier)
-	if os.Getenv("C15_BOUNDS") != "" { // measurement aid only
-		fmt.Sscanf(os.Getenv("C15_BOUNDS"), "%d,%d,%d,%d,%d", &b.histLabelled.MaxNodes, &b.histLabelledDepth, &b.histIso.MaxNodes, &b.histIso.MaxEdges, &b.histIsoDepth)
-		b.histIso.MinNodes = b.histIso.MaxNodes
+	if env := os.Getenv("C15_FAMILY"); env != "" { // measurement aid only: "minNodes,maxNodes,maxEdges,iso,depth,profiles"
+		var (
+			f    family
+			iso  int
+			prof string
+		)
+		if _, err := fmt.Sscanf(env, "%d,%d,%d,%d,%d,%s", &f.Graphs.MinNodes, &f.Graphs.MaxNodes, &f.Graphs.MaxEdges, &iso, &f.Depth, &prof); err != nil {
+			core.Fatalf("C15_FAMILY: %v", err)
+		}
+		f.Graphs.IsoReduce = iso == 1
+		f.Profiles = strings.Split(prof, "+")
+		b = bounds{history: []family{f}}
+		run.Capped("C15_FAMILY measurement run: a single history family, no static part")
 	}
+
+	var (
+		wg  sync.WaitGroup
+		sem = make(chan struct{}, 16)
+	)
 
 	// static part
-	var (
-		staticCases int64
-		sccShapes   = map[string]struct{}{}
-	)
-	doStatic := func(g graphs.Graph, profiles []string) {
-		for _, prof := range profiles {
-			for _, cont := range []string{"csr", "adj"} {
-				s := newSpec(g, prof, cont)
-				staticCases++
-				if v := staticCheck(s); v != nil {
-					run.Report(*v)
+	for _, fam := range b.static {
+		var batch []graphs.Graph
+		flush := func() {
+			if len(batch) == 0 {
+				return
+			}
+			work := batch
+			batch = nil
+			wg.Add(1)
+			sem <- struct{}{}
+			go func() {
+				defer wg.Done()
+				defer func() { <-sem }()
+				for _, g := range work {
+					for _, prof := range fam.Profiles {
+						for _, cont := range []string{"csr", "adj"} {
+							run.Add("static_cases", 1)
+							if v := staticCheck(newSpec(g, prof, cont)); v != nil {
+								run.Report(*v)
+							}
+						}
+					}
 				}
-			}
+			}()
 		}
+		graphs.Each(fam.Graphs, func(_ int, g graphs.Graph) bool {
+			if run.TimeUp() {
+				run.Capped("deadline in the static part")
+				return false
+			}
+			batch = append(batch, g)
+			if len(batch) == 512 {
+				flush()
+			}
+			return true
+		})
+		flush()
 	}
-	graphs.Each(b.staticLabelled, func(_ int, g graphs.Graph) bool { doStatic(g, b.profilesSmall); return !run.TimeUp() })
-	graphs.Each(b.staticIso, func(_ int, g graphs.Graph) bool { doStatic(g, b.profilesLarge); return !run.TimeUp() })
-	_ = sccShapes
-	run.Set("static_cases", staticCases)
+	wg.Wait()
 
-	// history part
-	var jobs []job
-	graphs.Each(b.histLabelled, func(_ int, g graphs.Graph) bool {
-		for _, prof := range b.profilesSmall {
-			s := newSpec(g, prof, "csr")
-			for _, c := range capacities(g.N) {
-				jobs = append(jobs, job{s, c, b.histLabelledDepth})
-			}
-		}
-		return true
-	})
-	graphs.Each(b.histIso, func(_ int, g graphs.Graph) bool {
-		for _, prof := range b.profilesLarge {
-			s := newSpec(g, prof, "csr")
-			for _, c := range capacities(g.N) {
-				jobs = append(jobs, job{s, c, b.histIsoDepth})
-			}
-		}
-		return true
-	})
-
+	// history part: problems are generated and dispatched one by one (nothing is materialised up front)
 	var (
-		wg       sync.WaitGroup
-		sem      = make(chan struct{}, 16)
 		maxDepth int64
 		mu       sync.Mutex
+		jobNo    int
+		stop     bool
 	)
-	for i, j := range jobs {
-		if run.TimeUp() {
-			run.Capped("deadline before all history problems were explored")
-			break
-		}
+	dispatch := func(j job) {
+		jobNo++
+		sampled := jobNo%997 == 1 // a spread of samples over all families; core keeps the first 12
 		wg.Add(1)
 		sem <- struct{}{}
 		go func() {
@@ -671,18 +706,35 @@ func main() {
 				maxDepth = int64(st.MaxDepth)
 			}
 			mu.Unlock()
-			if i%(len(jobs)/12+1) == 0 {
+			if sampled {
 				run.Sample(map[string]any{"problem": p.Name, "depth": j.depth, "alphabet_size": p.NumOps, "states": st.States, "transitions": st.Transitions})
 			}
 		}()
 	}
+	for _, fam := range b.history {
+		graphs.Each(fam.Graphs, func(_ int, g graphs.Graph) bool {
+			for _, prof := range fam.Profiles {
+				if run.TimeUp() {
+					run.Capped("deadline before all history problems were explored")
+					stop = true
+					return false
+				}
+				s := newSpec(g, prof, "csr")
+				s.digraph = s.build()
+				for _, c := range capacities(g.N) {
+					dispatch(job{s, c, fam.Depth})
+				}
+			}
+			return true
+		})
+		if stop {
+			break
+		}
+	}
 	wg.Wait()
 	run.Set("max_depth_reached", maxDepth)
-	run.Set("hist_depth_bound_labelled", int64(b.histLabelledDepth))
-	run.Set("hist_depth_bound_iso", int64(b.histIsoDepth))
 	run.Set("traces_validated_against_impl", run.Get("transitions"))
-	run.Set("bounds", fmt.Sprintf("static: labelled %+v, iso %+v; history: labelled %+v depth %d, iso %+v depth %d; capacities 1..n; directions out,in",
-		b.staticLabelled, b.staticIso, b.histLabelled, b.histLabelledDepth, b.histIso, b.histIsoDepth))
+	run.Set("bounds", map[string]any{"static": b.static, "history": b.history, "capacities": "1..n", "directions": "out,in"})
 	run.Assume("every transition is executed on a real ReachabilityCache (no separate model to conform): traces_validated_against_impl = transitions")
 	run.Assume("a SIEVE cache of capacity >= number of components never evicts, so capacities 1..n stand for every capacity from 1 upward")
 	run.Assume("the oracle is a stateless naive BFS over the edge list; reachability is reflexive; OrReach/XorReach are given sets that do not contain the queried node")
